@@ -369,10 +369,10 @@ def check(ctx):
     C11 = importlib.import_module("props.C11")
     class OnlyPanics(util.PrefixedCtx):
         def ob(self, rule, key, ok, site="", detail="", nontrivial=True, undecided=False):
-            if rule in ("R11.3", "R11.6"): return super().ob(rule, key, ok, site, detail, nontrivial, undecided)
+            if rule in ("R11.3", "R11.6", "R11.2"): return super().ob(rule, key, ok, site, detail, nontrivial, undecided)      # (R11.2: the error callback is awaited -- the last item is fully processed before the close callback)
             return ok
         def undecided(self, rule, key, site="", detail=""):
-            if rule in ("R11.3", "R11.6"): return super().undecided(rule, key, site, detail)
+            if rule in ("R11.3", "R11.6", "R11.2"): return super().undecided(rule, key, site, detail)
     C11.check(OnlyPanics(ctx, "R12.6"))
     ctx.floor("R12.6", 10)
 
